@@ -17,7 +17,7 @@ SYNC = {
             ('cases', 'c17_large', 120, 3000),
             ('suite',)],
     'C18': [('cases', 'c18_exhaustive', sc.c18_exhaustive_size('quick'), sc.c18_exhaustive_size('thorough')),
-            ('cases', 'c18_history', 4000, 200000),
+            ('cases', 'c18_history', 4000, 200000), ('cases', 'c18_large', 60, 1500),
             ('suite',)],
     'C19': [('cases', 'c19_program', 30000, 1500000)],
     'C20': [('cases', 'c20_tree', 12000, 400000),
